@@ -30,6 +30,20 @@ CHECKS.update({
     "C08": e1("Same exploration over mixed restricted workers, swarms and clusters, retries and replay; oracle at every test start: executing worker == the worker the test was parsed for, its nets_* parameters equal the worker's, its vm variants satisfy the worker's only/no restrictions, and for each required state the workers named in get_location are exactly those with a completed PASS execution (or replayed PASS result) of a producer, the shared pool is always named, and the named workers' access parameters are theirs."),
 })
 
+def e2(text, note):
+    return ("seqmc", "bounded exhaustive operation-sequence / input enumeration on the real functions vs a reference model", text, note, "§2.2, §4")
+
+CHECKS.update({
+    "C12": e2("Every cell of operation x two mode letters over {a,r,i,f,other} x state present/absent x root present/absent x root keyword/ordinary state x object level (chains of depth 1-3, 1-3 vms, 1-2 images) x check mode, plus skip_types x readonly x addressed-object cells, is executed on the real states.setup over an in-memory backend and compared (outcome, store, touched objects) with the README table transcribed as data; then BFS over check/get/set/unset/push/pop sequences from every initial store against a set-of-names model.",
+               "Reference = README table + the root rules documented in the code's messages; in-memory backend registered in BACKENDS as the selftests do; sequence depth 2 (quick) / 3 (thorough)."),
+    "C16": e2("All sets of <=3 (thorough 4) parser-shaped names, all insertion orders, all dotted queries of <=3 variants over the alphabet through PrefixTree.get/__contains__ and TestGraph.get_nodes_by_name vs a naive contiguous-subsequence scan; BFS over drop/pick register sequences (depth 3 / 5) on the real bridged nodes of a parsed two-worker graph vs a dict-of-counters model, every counter/worker query compared on every copy.",
+               "Names restricted as the statement says (set variant first, no repeated variant); alphabet of 2 set variants and 3-4 inner variants."),
+    "C18": e2("BFS over reattach/allocate sequences (depth 3 / 4) replayed on freshly built real VMNetwork objects for 4-5 topologies (1-4 vms, 2-3 nics, prefixes /16../30, shared and separate subnets) with an ipaddress-based invariant after every successful operation; every address of each range handed out once then exhaustion; all 33 prefix lengths both ways; translation for all host offsets of small subnets and boundary offsets of large ones.",
+               "DHCP ranges inside the subnet and disjoint from static addresses; proxy-arp reattach and change_network_address are outside the statement; enumerated subnet family instead of random subnets."),
+    "C19": e2("The full product local{nic,internetip,custom x2,unsupported} x remote{custom,externalip,modeconfig,unsupported} x peer{ip,dynip,unsupported} x auth{none,pubkey,psk x 4 id pairs,unsupported} x end point pairs x 3 topologies (separate LANs, multi-homed host, shared LAN) through the real VMTunnel constructor; mirror relations, swapped psk identities, the counterpart table for the derived right-hand types, ValueError for unsupported types, and connects_nodes(a,b)==connects_nodes(b,a) for all node pairs.",
+               "Inputs follow the callers' convention (nic keys present); three enumerated topologies instead of random networks."),
+})
+
 PLANNED = {}
 
 
